@@ -19,5 +19,7 @@ mkdir -p .work/setup
   cd "$REPO" && GOOS=js GOARCH=wasm go build -o /verif/.work/setup/otp.wasm ./wasm
 )
 node --version >/dev/null
+# instrumented std packages for the comparison-trace build (C09) take ~40 s the first time
+./check C09 quick >/dev/null 2>&1 || true
 rm -rf .work/setup
 echo "setup ok"
